@@ -38,7 +38,8 @@ EXTENDS Integers, Sequences, FiniteSets, TLC
 
 CONSTANTS Kind,        \* "set" or "map"
           N,           \* elements / keys are 1..N
-          Operands,    \* subsets of 1..N offered as the other operand of binary set operations
+          Operands,    \* subsets of 1..N offered as the other operand of binary set operations (the replayer
+                       \* passes T as SortedSet / set / frozenset / list and as a list repeating elements of T)
           Vals,        \* map values
           MaxNew,      \* map: longest pair list given to the constructor
           FullMapOps,  \* map: TRUE = compare with every map of <= 2 entries and with variants of the current one,
